@@ -1,6 +1,8 @@
 use crate::{GameServer, META_STATE};
 use futures_util::{StreamExt, TryStreamExt};
+use kube::ResourceExt;
 use kube::runtime::watcher::Config;
+use kube::runtime::watcher::Event;
 use kube::runtime::{WatchStreamExt, watcher};
 use kube::{Api, Client};
 use passage_adapters::discovery::DiscoveryAdapter;
@@ -46,26 +48,25 @@ impl AgonesDiscoveryAdapter {
         };
 
         // create the watch stream
-        let mut stream = watcher(servers, watch_config)
-            .default_backoff()
-            .applied_objects()
-            .boxed();
+        let mut stream = watcher(servers, watch_config).default_backoff().boxed();
 
         // start listener
         let _inner = Arc::clone(&inner);
         let _token = token.clone();
         tokio::spawn(async move {
             info!("starting game server watcher");
+            // the game servers of a (re-)list are collected and replace the cache once it is complete
+            let mut listed: Vec<Target> = Vec::new();
             loop {
                 // get next server update
-                let maybe_server = tokio::select! {
+                let maybe_event = tokio::select! {
                     biased;
                     _ = _token.cancelled() => break,
-                    maybe_server = stream.try_next() => maybe_server,
+                    maybe_event = stream.try_next() => maybe_event,
                 };
 
-                let server = match maybe_server {
-                    Ok(Some(server)) => server,
+                let event = match maybe_event {
+                    Ok(Some(event)) => event,
                     Ok(None) => break,
                     Err(err) => {
                         warn!(err = ?err, "error while watching game servers");
@@ -73,38 +74,63 @@ impl AgonesDiscoveryAdapter {
                     }
                 };
 
-                // map to target
-                let target: Target = match server.try_into() {
-                    Ok(target) => target,
-                    Err(err) => {
-                        warn!(err = ?err, "error while converting game server to target");
-                        continue;
+                match event {
+                    Event::Init => listed.clear(),
+                    Event::InitApply(server) => {
+                        let identifier = server.name_any();
+                        Self::update(&mut listed, &identifier, Self::ready_target(server));
                     }
-                };
-
-                // if ready, replace or push
-                let mut inner = _inner.write().await;
-                let state = target.meta.get(META_STATE).cloned().unwrap_or_default();
-                if state == "Ready" || state == "Allocated" {
-                    info!(uid = target.identifier, "adding game server to cache");
-                    let found = inner.iter_mut().find(|i| i.identifier == target.identifier);
-                    match found {
-                        Some(found) => *found = target,
-                        None => inner.push(target),
+                    Event::InitDone => {
+                        info!(len = listed.len(), "replacing game server cache");
+                        *_inner.write().await = std::mem::take(&mut listed);
                     }
-                    continue;
-                }
-
-                // remove
-                info!(uid = target.identifier, "removing game server from cache");
-                let found = inner.iter().position(|i| i.identifier == target.identifier);
-                if let Some(found) = found {
-                    inner.swap_remove(found);
+                    Event::Apply(server) => {
+                        let identifier = server.name_any();
+                        let target = Self::ready_target(server);
+                        Self::update(&mut *_inner.write().await, &identifier, target);
+                    }
+                    Event::Delete(server) => {
+                        let identifier = server.name_any();
+                        Self::update(&mut *_inner.write().await, &identifier, None);
+                    }
                 }
             }
         });
 
         Ok(Self { inner, token })
+    }
+
+    /// Converts the game server into a target if it can currently be connected to.
+    fn ready_target(server: GameServer) -> Option<Target> {
+        let target: Target = match server.try_into() {
+            Ok(target) => target,
+            Err(err) => {
+                warn!(err = ?err, "error while converting game server to target");
+                return None;
+            }
+        };
+        let state = target.meta.get(META_STATE).cloned().unwrap_or_default();
+        (state == "Ready" || state == "Allocated").then_some(target)
+    }
+
+    /// Replaces, adds or removes the target with the identifier.
+    fn update(targets: &mut Vec<Target>, identifier: &str, target: Option<Target>) {
+        let found = targets.iter().position(|i| i.identifier == identifier);
+        match (found, target) {
+            (Some(found), Some(target)) => {
+                info!(uid = identifier, "updating game server in cache");
+                targets[found] = target;
+            }
+            (None, Some(target)) => {
+                info!(uid = identifier, "adding game server to cache");
+                targets.push(target);
+            }
+            (Some(found), None) => {
+                info!(uid = identifier, "removing game server from cache");
+                targets.swap_remove(found);
+            }
+            (None, None) => {}
+        }
     }
 }
 
